@@ -1,8 +1,13 @@
 package props
 
 import (
+	"bytes"
 	"encoding/binary"
 	"fmt"
+	"hash/adler32"
+	"hash/crc32"
+	"hash/fnv"
+	"runtime"
 	"slices"
 	"strings"
 
@@ -1041,6 +1046,183 @@ func c13large(c *vf.Ctx, i int) {
 	}
 }
 
+// c13manyCalls: two small filters that live through 140 000 queries in one
+// process on one P (so that pooled scratch state, if a filter implementation
+// keeps any, is handed from call to call).  Filter A is queried at calls 0,
+// 1000 and 70001 only; every other call asks filter B for members of A (same
+// key, N, P and M, so an item has the same value in both) and must get B's own
+// answer.  Counters that wrap after 2^8 or 2^16 calls and whatever a previous
+// call left behind are the target; the answers are judged by the reference.
+func c13manyCalls(c *vf.Ctx, i int) {
+	r := c.R
+	old := runtime.GOMAXPROCS(1)
+	defer runtime.GOMAXPROCS(old)
+	key := gcsKey(r)
+	P, M := uint8(19), uint64(gcsDefaultM)
+	if i%2 == 1 {
+		P = uint8(r.Intn(21))
+		M, _ = gcsM(r, P, r.Intn(gcsMKinds))
+	}
+	N := 3 + r.Intn(38)
+	items := gcsItems(r, 2*N+8)
+	a, b, junk := items[:N], items[N:2*N], items[2*N:]
+	var fa, fb *gcs.Filter
+	var err error
+	desc := func() string { return fmt.Sprintf("P=%d M=%d N=%d key=%x", P, M, N, key) }
+	if !c.Call("BuildGCSFilter", desc, func() {
+		fa, err = gcs.BuildGCSFilter(P, M, key, a)
+		if err == nil {
+			fb, err = gcs.BuildGCSFilter(P, M, key, b)
+		}
+	}) || err != nil || fa == nil || fb == nil {
+		c.Inconclusive("many-calls-build-failed")
+		return
+	}
+	nm := uint64(N) * M
+	inB := map[uint64]bool{}
+	for _, it := range b {
+		inB[ref.GCSValue(key, it, nm)] = true
+	}
+	want := func(it []byte) bool { return inB[ref.GCSValue(key, it, nm)] }
+	const T = 140000
+	bad := 0
+	for t := 0; t < T && bad < 3; t++ {
+		if t == 0 || t == 1000 || t == 70001 {
+			var got bool
+			if !c.Call("HashMatchAny", desc, func() { got, _ = fa.HashMatchAny(key, a); _, _ = fa.MatchAny(key, a) }) {
+				return
+			}
+			if !got {
+				c.Failf("HashMatchAny/member-missed", "%s: call %d: filter A does not report its own members", desc(), t)
+				bad++
+			}
+			continue
+		}
+		x := a[t%N]
+		y := junk[t%len(junk)]
+		q := [][]byte{x, y}
+		w := want(x) || want(y)
+		var g [4]bool
+		if !c.Call("HashMatchAny", desc, func() {
+			g[0], _ = fb.HashMatchAny(key, q)
+			if t%16 == 0 {
+				g[1], _ = fb.MatchAny(key, q)
+				g[2], _ = fb.ZipMatchAny(key, q)
+				g[3], _ = fb.Match(key, x)
+			}
+		}) {
+			return
+		}
+		c.Evals(1)
+		if g[0] != w {
+			c.Failf("HashMatchAny/agreement", "%s: call %d on filter B (after filter A was queried at calls 0, 1000, 70001): HashMatchAny([member of A, junk]) = %v, but the items match B individually: %v; item %x", desc(), t, g[0], w, x)
+			bad++
+		}
+		if t%16 == 0 && (g[1] != w || g[2] != w || g[3] != want(x)) {
+			c.Failf("MatchAny/agreement", "%s: call %d on filter B: MatchAny=%v ZipMatchAny=%v Match(x)=%v, reference: any=%v x=%v; item %x", desc(), t, g[1], g[2], g[3], w, want(x), x)
+			bad++
+		}
+	}
+	c.Count("many_calls_queries_on_one_filter", T)
+	c.Nontrivial(vf.Mix(0x13c, uint64(i), vf.HashBytes(key[:]), uint64(N)))
+}
+
+// c13digestTwins: pairs of DIFFERENT small filters with the same N, P, M, key
+// and serialised length whose bytes collide under a common 32-bit digest
+// (CRC-32, Adler-32, FNV-1a; birthday search over 2^18 filters per case),
+// queried alternately.  Whatever a filter implementation remembers about "the
+// filter it saw last" must not be keyed by such a digest.
+func c13digestTwins(c *vf.Ctx, i int) {
+	r := c.R
+	key := gcsKey(r)
+	P, M := uint8(19), uint64(gcsDefaultM)
+	N := 2 + i%3
+	digest := []func([]byte) uint32{crc32.ChecksumIEEE, adler32.Checksum, func(b []byte) uint32 { h := fnv.New32a(); h.Write(b); return h.Sum32() }}[i%3]
+	dname := []string{"crc32", "adler32", "fnv1a32"}[i%3]
+	seen := map[uint64]uint32{}
+	mk := func(seed uint32) [][]byte {
+		d := make([][]byte, N)
+		for j := range d {
+			d[j] = []byte{byte(seed), byte(seed >> 8), byte(seed >> 16), byte(seed >> 24), byte(j), 0x5d}
+		}
+		return d
+	}
+	build := func(seed uint32) *gcs.Filter {
+		f, err := gcs.BuildGCSFilter(P, M, key, mk(seed))
+		if err != nil {
+			return nil
+		}
+		return f
+	}
+	var sa, sb uint32
+	found := false
+	ok := c.Call("BuildGCSFilter", func() string { return "digest twin search" }, func() {
+		for seed := uint32(1); seed < 1<<19 && !found; seed++ {
+			f := build(seed)
+			if f == nil {
+				continue
+			}
+			b, _ := f.Bytes()
+			k := uint64(len(b))<<32 | uint64(digest(b))
+			if o, hit := seen[k]; hit {
+				ob, _ := build(o).Bytes()
+				if !bytes.Equal(ob, b) {
+					sa, sb, found = o, seed, true
+				}
+				continue
+			}
+			seen[k] = seed
+		}
+	})
+	if !ok {
+		return
+	}
+	if !found {
+		c.Inc("digest_twins_not_found_" + dname)
+		return
+	}
+	c.Inc("digest_twins_" + dname)
+	fa, fb := build(sa), build(sb)
+	da, db := mk(sa), mk(sb)
+	nm := uint64(N) * M
+	member := func(set [][]byte, it []byte) bool {
+		v := ref.GCSValue(key, it, nm)
+		for _, x := range set {
+			if ref.GCSValue(key, x, nm) == v {
+				return true
+			}
+		}
+		return false
+	}
+	desc := func() string {
+		return fmt.Sprintf("filters of seeds %d and %d (N=%d P=%d M=%d key=%x), equal length and equal %s of their bytes", sa, sb, N, P, M, key, dname)
+	}
+	for rep := 0; rep < 6; rep++ {
+		for j := 0; j < N; j++ {
+			var g [8]bool
+			if !c.Call("Match", desc, func() {
+				g[0], _ = fa.Match(key, da[j])
+				g[1], _ = fb.Match(key, db[j])
+				g[2], _ = fa.Match(key, db[j])
+				g[3], _ = fb.Match(key, da[j])
+				g[4], _ = fa.HashMatchAny(key, da[j:j+1])
+				g[5], _ = fb.HashMatchAny(key, db[j:j+1])
+				g[6], _ = fa.ZipMatchAny(key, db[j:j+1])
+				g[7], _ = fb.MatchAny(key, da[j:j+1])
+			}) {
+				return
+			}
+			c.Evals(8)
+			w := [8]bool{true, true, member(da, db[j]), member(db, da[j]), true, true, member(da, db[j]), member(db, da[j])}
+			if g != w {
+				c.Failf("Match/digest-twins", "%s: alternating queries gave %v, the items' membership is %v (Match a/A, b/B, b/A, a/B, HashMatchAny a/A, b/B, Zip b/A, MatchAny a/B)", desc(), g, w)
+				return
+			}
+		}
+	}
+	c.Nontrivial(vf.Mix(0x13d, uint64(sa), uint64(sb), vf.HashBytes(key[:])))
+}
+
 // gcsSelfTest validates the references used by C13 and C14.
 func gcsSelfTest() error {
 	if err := ref.SelfTestSipHash(); err != nil {
@@ -1126,6 +1308,8 @@ func init() {
 			{Name: "large", N: func(t vf.Tier) int { return t.Sz(len(gcsLargeCfgs), 96) }, Run: c13large, MaxCaseSec: 120, RlimitAS: gcsRlimit},
 			{Name: "grid", N: func(t vf.Tier) int { return gcsGridCount() * t.Sz(1, 2) }, Run: c13grid, RlimitAS: gcsRlimit},
 			{Name: "random", N: func(t vf.Tier) int { return t.Sz(1500, 20000) }, Run: c13random, RlimitAS: gcsRlimit, MaxCaseSec: 120},
+			{Name: "digest-twins", N: func(t vf.Tier) int { return t.Sz(9, 90) }, Run: c13digestTwins, MaxCaseSec: 120},
+			{Name: "many-calls", Workers: 1, Shards: 4, N: func(t vf.Tier) int { return t.Sz(8, 48) }, Run: c13manyCalls, MaxCaseSec: 120},
 		},
 	})
 }
